@@ -45,7 +45,7 @@ for sid in sorted(os.listdir(f"{ROOT}/seeded")):
                         dst = f"{ROOT}/regressions/{cid}"
                         os.makedirs(dst, exist_ok=True)
                         # (cases that sleep for real are not kept: regression inputs are replayed under every ambient combination)
-                    if os.path.exists(src) and os.path.getsize(src) < 200_000 and 'pause_ms' not in open(src).read():
+                        if os.path.exists(src) and os.path.getsize(src) < 200_000 and 'pause_ms' not in open(src).read():
                             import shutil
                             shutil.copy(src, f"{dst}/{sid}.json")
                         break
